@@ -283,9 +283,63 @@ def run_suite(prop, scenarios, profiles, monitors, tag="suite", compare_model=Tr
     return res
 
 
+def run_profile_diff(prop, scenarios, tag="profiles"):
+    """C17: the same scenario file through the debug and the release harness; the transcripts of the
+    generated code (I lines) are compared line by line; each is also compared with the model under its profile"""
+    os.makedirs(os.path.join(WORK, prop), exist_ok=True)
+    path = os.path.join(WORK, prop, f"{tag}.scn")
+    write_scenarios(path, scenarios)
+    res = SuiteResult()
+    tr = {p: run_harness(p, path) for p in ("debug", "release")}
+    md = {p: run_model(path, p) for p in ("debug", "release")}
+    for k, sc in enumerate(scenarios):
+        d, r = tr["debug"][k], tr["release"][k]
+        res.evaluations += 2
+        res.steps += len(d)
+        for a, b in zip(d, r):
+            if a != b and a.startswith("I "):
+                step = a.split()[1]
+                res.failures.append(Failure(sc, "release", step, f"debug: {a[:200]} | release: {b[:200]}", f"C17:{op_of(sc, step)}:diff", {"debug": a, "release": b}))
+                break
+        ok = True
+        for p in ("debug", "release"):
+            for a, b in zip(tr[p][k], md[p][k]):
+                if a != b:
+                    (res.tie_mismatch if a.startswith("I ") else res.std_mismatch).append((sc, p, a, b) if a.startswith("I ") else (sc, a, b))
+                    ok = False
+                    break
+        if ok: res.traces_validated += 2
+        res.hist_shapes[sc.shape] += 1
+        for l in sc.lines: res.hist_ops[l.split()[0]] += 1
+        if len(sc.lines) > 1: res.distinct.add(sc.key())
+        if len(res.samples) < 3 and k % max(1, len(scenarios) // 3) == 0:
+            res.samples.append({"shape": sc.shape, "ops": sc.lines[:10], "debug": d[1][:160] if len(d) > 1 else "", "release": r[1][:160] if len(r) > 1 else ""})
+    return res
+
+
+def mon_c17(sc, prof, pairs):
+    return []
+
+
+def still_differs(prop, sc):
+    path = os.path.join(WORK, prop, "min.scn")
+    write_scenarios(path, [sc])
+    try:
+        d = run_harness("debug", path)[0]; r = run_harness("release", path)[0]
+    except BuildError:
+        return None
+    for a, b in zip(d, r):
+        if a != b and a.startswith("I "):
+            step = a.split()[1]
+            return Failure(sc, "release", step, f"debug: {a[:200]} | release: {b[:200]}", f"C17:{op_of(sc, step)}:diff", {"debug": a, "release": b})
+    return None
+
+
 # ------------------------------------------------------------------ minimisation (delta debugging on the op list)
 
 def still_fails(prop, sc, prof, monitors, key):
+    if key.startswith("C17:"):
+        return still_differs(prop, sc)
     path = os.path.join(WORK, prop, "min.scn")
     write_scenarios(path, [sc])
     try:
